@@ -76,7 +76,7 @@ func checkMany(src []byte, v px.Ver, list, boundary int, ms []string) insertionR
 	} else {
 		at = endOfList(owner, good.Root, src)
 	}
-	if at < 0 {
+	if at < 0 || !phpModeAt(good.Root, at) {
 		res.skipped = true
 		return res
 	}
@@ -135,7 +135,7 @@ func TestManyMalformedStatements(t *testing.T) {
 	harness.Check(t, "many-malformed", 4000, 150000, func(rt *rapid.T) {
 		v := rapid.SampledFrom(px.KeyVersions).Draw(rt, "version")
 		o := progs.StructuralOptions(v)
-		o.NoHTML, o.NoHalt = true, true
+		o.NoHalt = true
 		c := progs.Draw(rt, v, o, 1, 4)
 		src := append([]byte{}, c.G.Render(c.Root, progs.Policy(rt, phpgen.PolicySpace, nil)).Src...)
 		good := px.Parse(src, v, true)
